@@ -22,6 +22,8 @@ type scanResp struct {
 	ID         int      `json:"id"`
 	Features   []string `json:"features"`
 	Violations []string `json:"violations"`
+	Exports    []string `json:"exports"`
+	ExportStar bool     `json:"export_star"`
 	Error      string   `json:"error"`
 }
 
